@@ -10,7 +10,7 @@ RULE = ("G2 typed Sids (concrete and search, every configured type incl. forced-
         "untyped Sids from the G1 mutation classes checked for empty-Sid navigation. Non-trivial = distinct (uri, key) pair "
         "with at least 2 fields, or distinct untyped string.")
 ASSUME = ["'parent / last value == sid' is judged on naturally typed Sids only (string concatenation cannot carry a forced type)"]
-BUDGET = {"quick": 20000, "thorough": 300000}
+BUDGET = {"quick": 20000, "thorough": 1600000}
 NSHARDS = 16
 
 
